@@ -1021,10 +1021,11 @@ theorem releasePutCallers_time (a : Actor) (done : List (Id × Option PutErr)) :
       unfold releasePutOne; split <;> exact ⟨rfl, rfl, rfl⟩
     exact ⟨i1.trans h.1, i2.trans h.2.1, i3.trans h.2.2⟩
 
-theorem finishTick_adv (a : Actor) (now : Nat) (dp0 : List (Id × Option PutErr)) : Adv now a (finishTick a now dp0) := by
+/-- the end of the tick after `start_put_queries` -/
+theorem finishTick_rest_adv (a : Actor) (now : Nat) (dp0 : List (Id × Option PutErr)) :
+    Adv now (startPuts a now (a.doneLookups now) dp0).1 (finishTick a now dp0) := by
   unfold finishTick
-  have h1 := startPuts_adv a now (a.doneLookups now) dp0
-  generalize startPuts a now (a.doneLookups now) dp0 = sp at h1 ⊢
+  generalize startPuts a now (a.doneLookups now) dp0 = sp
   obtain ⟨c1, c2⟩ := cleanupDone_time sp.1.core (a.doneLookups now) sp.2
   generalize cleanupDone sp.1.core (a.doneLookups now) sp.2 = cd at c1 c2 ⊢
   have h2 : Adv now sp.1 { sp.1 with core := cd.1 } :=
@@ -1034,7 +1035,10 @@ theorem finishTick_adv (a : Actor) (now : Nat) (dp0 : List (Id × Option PutErr)
   obtain ⟨g1, g2, g3⟩ := releaseGetCallers_time (pingOpt { sp.1 with core := cd.1 } cd.2 now) (a.doneLookups now)
   obtain ⟨p1, p2, p3⟩ := releasePutCallers_time
     (releaseGetCallers (pingOpt { sp.1 with core := cd.1 } cd.2 now) (a.doneLookups now)) sp.2
-  exact h1.trans (h2.trans (h3.trans ((events_adv g1 g2 g3).trans (events_adv p1 p2 p3))))
+  exact h2.trans (h3.trans ((events_adv g1 g2 g3).trans (events_adv p1 p2 p3)))
+
+theorem finishTick_adv (a : Actor) (now : Nat) (dp0 : List (Id × Option PutErr)) : Adv now a (finishTick a now dp0) :=
+  (startPuts_adv a now (a.doneLookups now) dp0).trans (finishTick_rest_adv a now dp0)
 
 theorem afterRecv_adv (a : Actor) (env : Env) (dgram : Option (Message × Addr)) : Adv env.now a (a.afterRecv env dgram) := by
   unfold afterRecv
